@@ -17,6 +17,8 @@ import math
 import re
 from pathlib import Path
 
+import warnings
+
 import numpy as np
 
 from harness.common import CORPUS_DIR, ROOT, aeic_setup, close, f2u, fs2u, u2f, u2fs
@@ -40,7 +42,7 @@ TRUSTED = ['Lean 4.33 kernel', 'axioms propext/Classical.choice/Quot.sound', 'Ma
 ASSUME = ['IEEE rounding is not modelled: theorems are over R; impl vs Float model compared with rtol 1e-9 '
           '(1e-7 for the polyfit path when the calibration flows span < 3 %)',
           'certification data strictly positive (the property quantifies over positive data sets)',
-          'NOx: not all four calibration flows equal (np.polyfit is rank-deficient there; skipped and counted)',
+          'NOx with all four calibration flows equal (np.polyfit is rank-deficient there): only finiteness and sign are required, the values are not compared',
           'HC/CO evaluation points within 1e-12 (relative, log space) of the segment intercept are tie suspects']
 
 CATS = ['idle', 'approach', 'climb', 'takeoff']
@@ -248,6 +250,8 @@ def cases_nox(rng, impl, n):
             ei = _fl(float(10 ** rng.uniform(0.0, 1.5)) * (1.0 + rng.uniform(-0.03, 0.03, 4)))
         else:
             ei = _fl(10 ** rng.uniform(-1.0, 2.0, 4))
+        if k % 11 == 7:  # all four calibration flows equal (positive): the fit is undetermined, the result must stay finite
+            fam, cal = 'equal_all', [cal[0]] * 4
         ff = gen_eval_flows(rng, cal, 14)
         h, T, P = gen_ambient(rng, impl, len(ff))
         out.append({'fn': 'nox', 'family': fam, 'cal': cal, 'ei': ei, 'ff': ff, 'T': T, 'P': P,
@@ -536,7 +540,19 @@ def check_nox(ctx, impl, case, outs):
     cal, ei = case['cal'], case['ei']
     asis, pub = outs
     if not (u2f(asis['sxx']) > 0.0) or max(cal) / min(cal) < 1.0 + 1e-6:
-        ctx.count('nox:degenerate_all_flows_equal_skipped')
+        # all four calibration flows equal: the regression line is not determined (np.polyfit returns its minimum-norm
+        # solution), so the values are not compared with the cited equations — but the indices must still be finite and
+        # non-negative ("equal calibration flows" are inside the property's quantification)
+        ctx.count('nox:degenerate_all_flows_equal')
+        try:
+            with np.errstate(all='ignore'), warnings.catch_warnings():
+                warnings.simplefilter('ignore')
+                r = impl.BFFM2_EINOx(ff, impl.tmv(ei), impl.tmv(cal), T, P)
+            comps = [r.NOxEI, r.NOEI, r.NO2EI, r.HONOEI, r.noProp, r.no2Prop, r.honoProp]
+            rep.clause('nox_finite_nonneg', all(_finite_nonneg(x) for x in comps),
+                       'non-finite or negative component with four equal calibration flows')
+        except Exception as e:  # noqa: BLE001
+            rep.clause('nox_finite_nonneg', False, f'raised {type(e).__name__} with four equal calibration flows')
         return rep
     narrow = max(cal) / min(cal) < 1.03
     rtol = 1e-7 if narrow else RTOL
